@@ -447,6 +447,34 @@ impl Exec {
                 }
             }
             Action::Drop => self.drop_top(),
+            Action::FireAll => {
+                let cands: Vec<NodeId> = world::with(|w| {
+                    w.leaves
+                        .iter()
+                        .cloned()
+                        .filter(|&l| {
+                            let n = &w.nodes[l];
+                            match (n.last_answer(), n.wakers.last()) {
+                                (Some(Answer::Pend(k)), Some(wk)) => *k != PendKind::Never && wk.fires.is_empty() && w.live(l),
+                                _ => false,
+                            }
+                        })
+                        .collect()
+                });
+                for target in cands {
+                    match catch_unwind(AssertUnwindSafe(|| world::fire(target, 0, false))) {
+                        Err(_) => {
+                            self.inconclusive = Some("runaway inside a waker");
+                            return;
+                        }
+                        Ok(info) => {
+                            if info.first_on_current {
+                                self.check_l_event(target);
+                            }
+                        }
+                    }
+                }
+            }
         }
     }
 
@@ -520,7 +548,7 @@ pub fn run_case(case: &Case, std_cfg: bool, trace: bool) -> RunOut {
     let mut quiescent = false;
     if case.fair_polls > 0 {
         // C17 mode: keep polling; the designated input never ends
-        for i in 0..case.fair_polls {
+        for i in 0..case.fair_polls as usize {
             if !ex.alive() {
                 break;
             }
@@ -530,7 +558,7 @@ pub fn run_case(case: &Case, std_cfg: bool, trace: bool) -> RunOut {
                 break;
             }
             // sprinkle wake-ups of the other inputs
-            if let Some(b) = case.drain.get(i as usize) {
+            if let Some(b) = case.drain.get(i) {
                 if b & 1 == 1 {
                     ex.act(&Action::Fire {
                         leaf: *b,
